@@ -15,7 +15,7 @@ namespace c02
     {
         using Vec = typename Tr::template vec<T>;
         using CI = typename Vec::const_iterator;
-        static constexpr bool tracked = std::is_same<T, Tracked>::value;
+        static constexpr bool tracked = std::is_base_of<Tracked, T>::value; // Tracked and the element types derived from it
         string variant; // e.g. "vector_int"
         trk::Registry reg;
         uint64_t steps = 0;
